@@ -215,6 +215,7 @@ class SamplerCore:
             u = u[idx]
             x = x[idx]
             logl = logl[idx]
+            logw = logw[idx]
             if blobs is not None:
                 blobs = blobs[idx]
 
@@ -225,6 +226,7 @@ class SamplerCore:
             u = u[idx]
             x = x[idx]
             logl = logl[idx]
+            logw = logw[idx]
             if blobs is not None:
                 blobs = blobs[idx]
             weights = np.ones(len(idx)) / len(idx)
